@@ -193,125 +193,129 @@ impl<'a> Iterator for Tokenizer<'a> {
 
     #[inline]
     fn next(&mut self) -> Option<Self::Item> {
-        let start = self.offset();
-        let token = match self.bump()? {
-            // Identifiers
-            c if c.is_alphabetic() || c == '_' => {
-                // first char must be alphabetic, but consecutive chars can have integers
-                self.skip_while(|c, _| c.is_alphanumeric() || c == '_');
-                let ident = self.read_str(start, self.offset());
-                ident.into()
-            }
+        // whitespace and comments are skipped in a loop: a call of next() for each of them
+        // overflows the native stack on a long run of blanks when tail calls are not eliminated
+        loop {
+            let start = self.offset();
+            let token = match self.bump()? {
+                // Identifiers
+                c if c.is_alphabetic() || c == '_' => {
+                    // first char must be alphabetic, but consecutive chars can have integers
+                    self.skip_while(|c, _| c.is_alphanumeric() || c == '_');
+                    let ident = self.read_str(start, self.offset());
+                    ident.into()
+                }
 
-            // Integers & Floats
-            '0'..='9' => {
-                let mut decimal = false;
-                self.skip_while(|c, _| {
-                    if c.is_ascii_digit() {
-                        return true;
+                // Integers & Floats
+                '0'..='9' => {
+                    let mut decimal = false;
+                    self.skip_while(|c, _| {
+                        if c.is_ascii_digit() {
+                            return true;
+                        }
+
+                        if !decimal && c == '.' {
+                            decimal = true;
+                            return true;
+                        }
+
+                        false
+                    });
+                    let strval = self.read_str(start, self.offset());
+                    if decimal {
+                        Float(strval)
+                    } else {
+                        Int(strval)
+                    }
+                }
+
+                // String values
+                '"' => {
+                    self.skip_while(|c, esc| c != '"' || esc);
+
+                    // skip closing "
+                    if self.bump().is_none() {
+                        // the input ended before the string did
+                        return Some(Illegal);
                     }
 
-                    if !decimal && c == '.' {
-                        decimal = true;
-                        return true;
+                    // this reads the string including escape characters
+                    String(self.read_str(start + 1, self.offset() - 1))
+                }
+
+                // Whitespace (skipped, because insignificant in Nederlang)
+                c if is_whitespace(c) => continue,
+
+                // Multi-char tokens:
+                '=' => {
+                    if self.peek() == Some('=') {
+                        Eq
+                    } else {
+                        Assign
                     }
-
-                    false
-                });
-                let strval = self.read_str(start, self.offset());
-                if decimal {
-                    Float(strval)
-                } else {
-                    Int(strval)
                 }
-            }
-
-            // String values
-            '"' => {
-                self.skip_while(|c, esc| c != '"' || esc);
-
-                // skip closing "
-                if self.bump().is_none() {
-                    // the input ended before the string did
-                    return Some(Illegal);
+                '!' => {
+                    if self.peek() == Some('=') {
+                        Neq
+                    } else {
+                        Bang
+                    }
                 }
-
-                // this reads the string including escape characters
-                String(self.read_str(start + 1, self.offset() - 1))
-            }
-
-            // Whitespace (skipped, because insignificant in Nederlang)
-            c if is_whitespace(c) => return self.next(),
-
-            // Multi-char tokens:
-            '=' => {
-                if self.peek() == Some('=') {
-                    Eq
-                } else {
-                    Assign
+                '<' => {
+                    if self.peek() == Some('=') {
+                        Lte
+                    } else {
+                        Lt
+                    }
                 }
-            }
-            '!' => {
-                if self.peek() == Some('=') {
-                    Neq
-                } else {
-                    Bang
+                '>' => {
+                    if self.peek() == Some('=') {
+                        Gte
+                    } else {
+                        Gt
+                    }
                 }
-            }
-            '<' => {
-                if self.peek() == Some('=') {
-                    Lte
-                } else {
-                    Lt
+                '/' => {
+                    // Two consecutive slashes indicate the start of a single-line comment
+                    // So skip forward until end of line.
+                    if self.peek() == Some('/') {
+                        self.skip_while(|c, _| c != '\n');
+                        continue;
+                    } else {
+                        Slash
+                    }
                 }
-            }
-            '>' => {
-                if self.peek() == Some('=') {
-                    Gte
-                } else {
-                    Gt
-                }
-            }
-            '/' => {
-                // Two consecutive slashes indicate the start of a single-line comment
-                // So skip forward until end of line.
-                if self.peek() == Some('/') {
-                    self.skip_while(|c, _| c != '\n');
-                    return self.next();
-                } else {
-                    Slash
-                }
-            }
-            '&' if self.peek() == Some('&') => And,
-            '|' if self.peek() == Some('|') => Or,
-            // One-symbol tokens.
-            ';' => Semi,
-            ',' => Comma,
-            '.' => Dot,
-            '(' => OpenParen,
-            ')' => CloseParen,
-            '{' => OpenBrace,
-            '}' => CloseBrace,
-            '[' => OpenBracket,
-            ']' => CloseBracket,
-            '-' => Minus,
-            '+' => Plus,
-            '*' => Star,
-            '^' => Caret,
-            '%' => Percent,
+                '&' if self.peek() == Some('&') => And,
+                '|' if self.peek() == Some('|') => Or,
+                // One-symbol tokens.
+                ';' => Semi,
+                ',' => Comma,
+                '.' => Dot,
+                '(' => OpenParen,
+                ')' => CloseParen,
+                '{' => OpenBrace,
+                '}' => CloseBrace,
+                '[' => OpenBracket,
+                ']' => CloseBracket,
+                '-' => Minus,
+                '+' => Plus,
+                '*' => Star,
+                '^' => Caret,
+                '%' => Percent,
 
-            // Unknown / illegal tokens
-            _ => Illegal,
-        };
+                // Unknown / illegal tokens
+                _ => Illegal,
+            };
 
-        // If we parsed a multi-char token,
-        // bump iterator appropriate number of times
-        match token {
-            Eq | Neq | Gte | Lte | And | Or => self.bump(),
-            _ => None,
-        };
+            // If we parsed a multi-char token,
+            // bump iterator appropriate number of times
+            match token {
+                Eq | Neq | Gte | Lte | And | Or => self.bump(),
+                _ => None,
+            };
 
-        Some(token)
+            return Some(token);
+        }
     }
 }
 
